@@ -430,5 +430,78 @@ pub fn families() -> Vec<Box<dyn Family>> {
                 }
             },
         ),
+        family(
+            "tiny_ratios",
+            "the cutoff comparison at VERY SMALL ratios (where f32 values are far denser than any fixed-point key): a word of L1 characters and candidates of L2 characters that share exactly s of them in order (ratio 2s/(L1+L2) down to 0.0004, known by construction; all-distinct characters, or s shared characters followed by one repeated filler per side), cutoffs = that ratio, its f32 neighbours one and two ulps above and below, and 0: a candidate is returned exactly when its ratio is >= the cutoff",
+            false,
+            1,
+            |cfg| if cfg.tiny { 2 } else { cfg.tier.pick(48, 208) },
+            |idx, cfg, out| {
+                let mut rng = Rng::for_case(cfg.seed, "c18.tiny_ratios", idx);
+                let shapes: [(usize, usize, usize); 8] = [(1101, 1101, 1), (600, 1700, 1), (2000, 2000, 3), (300, 300, 1), (1500, 900, 2), (2500, 2500, 1), (512, 513, 1), (1024, 1023, 2)];
+                let (l1, l2, sh) = if cfg.tiny { (12, 9, 1) } else { shapes[(idx % 8) as usize] };
+                let ch = |i: usize| char::from_u32(0x4e00 + i as u32).unwrap();
+                let word: Vec<char> = (0..l1).map(ch).collect();
+                // candidate: fresh distinct characters with `sh` characters of the word planted in order
+                let mut cand: Vec<char> = (0..l2 - sh).map(|j| ch(l1 + 10 + j)).collect();
+                let mut picks: Vec<usize> = (0..sh).map(|_| rng.below(l1)).collect();
+                picks.sort();
+                picks.dedup();
+                let sh = picks.len();
+                let mut at: Vec<usize> = (0..sh).map(|_| rng.below(cand.len() + 1)).collect();
+                at.sort();
+                for (k, (p, a)) in picks.iter().zip(at.iter()).enumerate() {
+                    cand.insert(a + k, ch(*p));
+                }
+                // every other case: LOW-ENTROPY strings instead (the shared characters, then one repeated
+                // filler character per side) - the multiset pre-filter over-estimates those generously,
+                // so the exact ratio alone decides
+                let runs = (idx / 8) % 2 == 1;
+                let (word, cand): (Vec<char>, Vec<char>) = if runs {
+                    let shared: Vec<char> = (0..sh).map(|i| ch(20_000 + i)).collect();
+                    let mut w = shared.clone();
+                    w.extend(std::iter::repeat('b').take(l1 - sh));
+                    let mut c = shared;
+                    c.extend(std::iter::repeat('c').take(cand.len() - sh));
+                    (w, c)
+                } else {
+                    (word, cand)
+                };
+                // a second candidate sharing nothing
+                let other: Vec<char> = (0..l2).map(|j| ch(l1 + l2 + 50 + j)).collect();
+                let word_s: String = word.iter().collect();
+                let cand_s: String = cand.iter().collect();
+                let other_s: String = other.iter().collect();
+                let refs: Vec<&str> = vec![cand_s.as_str(), other_s.as_str()];
+                let r = 2.0 * sh as f32 / (l1 + cand.len()) as f32;
+                out.sample(|| format!("word of {} chars, candidate of {} chars sharing {} (ratio {:e})", l1, cand.len(), sh, r));
+                out.nontrivial(&(l1, l2, sh, idx));
+                out.count("tiny_ratio_cases");
+                let bits = r.to_bits();
+                let cutoffs = [0.0f32, r, f32::from_bits(bits + 1), f32::from_bits(bits + 2), f32::from_bits(bits - 1), f32::from_bits(bits - 2), f32::from_bits(bits + 64), f32::from_bits(bits - 64)];
+                for cutoff in cutoffs {
+                    out.eval();
+                    let mut expect: Vec<&str> = Vec::new();
+                    if r >= cutoff {
+                        expect.push(refs[0]);
+                    }
+                    if 0.0 >= cutoff {
+                        expect.push(refs[1]);
+                    }
+                    match guard(|| get_close_matches(word_s.as_str(), &refs, 3, cutoff)) {
+                        Err(p) => out.violation("panic", format!("get_close_matches panicked: {} | word of {} chars, cutoff={:e}", p, l1, cutoff)),
+                        Ok(got) => {
+                            if got != expect {
+                                let show = |v: &[&str]| v.iter().map(|s| if std::ptr::eq(*s, refs[0]) { "sharing-candidate" } else { "unrelated-candidate" }).collect::<Vec<_>>();
+                                out.violation(
+                                    "close_matches.differs_from_exhaustive_ranking",
+                                    format!("word of {} distinct chars, candidate of {} chars sharing exactly {} of them in order (ratio {:e} = bits {:#x}), unrelated candidate (ratio 0); n=3 cutoff={:e} (bits {:#x}): got {:?} expected {:?}", l1, cand.len(), sh, r, bits, cutoff, cutoff.to_bits(), show(&got), show(&expect)),
+                                );
+                            }
+                        }
+                    }
+                }
+            },
+        ),
     ]
 }
